@@ -204,10 +204,17 @@ def run() -> int:
                 f"value {v['est']} != P(y|do x, z) = {v['truth']} at {v['env']}" if v["kind"] == "wrong" else v["why"]
             )
             rep.add_violation(Violation(PROP, [key], what, payload))
+    from .. import history_runs
+
+    history_runs.run(rep, PROP)
     return rep.finish()
 
 
 def replay(payload: dict) -> int:
+    if payload.get("kind") == "history":
+        from .. import history_runs
+
+        return history_runs.replay(PROP, payload)
     g = GSpec.from_json(payload["graph"])
     X, Y, Z = payload["X"], payload["Y"], payload["Z"]
     print("graph", g.key(), "X", X, "Y", Y, "Z", Z)
